@@ -67,12 +67,26 @@ func (p *RunnableProcessor) Open(ctx context.Context) error {
 	return nil
 }
 
+// fillMissingErrors gives every error record that carries no error (e.g. the
+// reply of a standalone plugin that left the error field unset) an error. Such
+// a record still means that the record failed, and the engines need the error:
+// it is the nack reason and goes into the DLQ record; without one they crash
+// or take the record for handled.
+func fillMissingErrors(recs []sdk.ProcessedRecord) []sdk.ProcessedRecord {
+	for i, rec := range recs {
+		if er, ok := rec.(sdk.ErrorRecord); ok && er.Error == nil {
+			recs[i] = sdk.ErrorRecord{Error: cerrors.New("processor returned an error record without an error")}
+		}
+	}
+	return recs
+}
+
 func (p *RunnableProcessor) Process(ctx context.Context, records []opencdc.Record) []sdk.ProcessedRecord {
 	p.inInsp.Send(ctx, records)
 
 	var outRecs []sdk.ProcessedRecord
 	if p.cond == nil {
-		outRecs = p.proc.Process(ctx, records)
+		outRecs = fillMissingErrors(p.proc.Process(ctx, records))
 	} else {
 		// We need to first evaluate condition for each record.
 
@@ -105,7 +119,7 @@ func (p *RunnableProcessor) Process(ctx context.Context, records []opencdc.Recor
 		// the rest.
 		short, nResults := false, 0
 		if len(keptRecords) > 0 {
-			outRecs = p.proc.Process(ctx, keptRecords)
+			outRecs = fillMissingErrors(p.proc.Process(ctx, keptRecords))
 			if len(outRecs) > len(keptRecords) {
 				return []sdk.ProcessedRecord{
 					sdk.ErrorRecord{Error: cerrors.New("processor returned more records than input")},
